@@ -13,7 +13,7 @@ UNIT = dict(
     cfg=dict(
         type_map={'string': 'vstr'},
         members={'m_request', 'm_isHttp', 'm_mode'},
-        methods={'append': 'vstr_append', 'find': [(r'.', 'vstr_find_any')], 'rfind': 'vstr_rfind_cstr6', 'resize': 'vstr_resize', 'erase': 'vstr_erase', 'length': 'vstr_length', 'c_str': 'vstr_c_str'},
+        methods={'append': 'vstr_append', 'find': [(r'.', 'vstr_find_any')], 'rfind': 'vstr_rfind_cstr6', 'resize': 'vstr_resize', 'erase': 'vstr_erase', 'replace': 'vstr_replace_fill', 'length': 'vstr_length', 'c_str': 'vstr_c_str'},
         index=[(r'^m_request$', 'vstr_ref')],
         ref_returns=['vstr_ref'],
         text_subs=[(r'vstr::npos', 'VSTR_NPOS'), (r'vstr_append\(&self->m_request, add\)', 'vstr_append(&self->m_request, &add)'), (r'vstr add = request;', 'vstr add = vstr_from_cstr(request);'),
